@@ -153,6 +153,25 @@ type seq struct {
 
 func (s seq) show() string {
 	switch s.typ {
+	case "octets":
+		parts := make([]string, len(s.el))
+		for i, e := range s.el {
+			if e.k != 'i' || e.i < 0 || 255 < e.i {
+				panic("non-octet in octets sequence")
+			}
+			parts[i] = e.show()
+		}
+		return "#o(" + strings.Join(parts, " ") + ")"
+	case "bit-vector":
+		var b strings.Builder
+		b.WriteString("#*")
+		for _, e := range s.el {
+			if e.k != 'i' || (e.i != 0 && e.i != 1) {
+				panic("non-bit in bit-vector sequence")
+			}
+			b.WriteString(e.show())
+		}
+		return b.String()
 	case "string":
 		var b strings.Builder
 		for _, e := range s.el {
@@ -182,6 +201,12 @@ func (s seq) show() string {
 // lisp renders an expression building a fresh sequence.
 func (s seq) lisp() string {
 	switch s.typ {
+	case "octets", "bit-vector":
+		parts := make([]string, len(s.el))
+		for i, e := range s.el {
+			parts[i] = e.lisp()
+		}
+		return "(coerce " + strings.TrimSpace("(list "+strings.Join(parts, " ")+")") + " '" + s.typ + ")"
 	case "string":
 		var b strings.Builder
 		for _, e := range s.el {
@@ -216,12 +241,12 @@ func elemsOf(obj slip.Object) (typ string, elems []string, ok bool) {
 			if _, isTail := e.(slip.Tail); isTail {
 				return "list", nil, false
 			}
-			elems = append(elems, sl.Show(e))
+			elems = append(elems, render(e))
 		}
 		return "list", elems, true
 	case *slip.Vector:
 		for _, e := range to.AsList() {
-			elems = append(elems, sl.Show(e))
+			elems = append(elems, render(e))
 		}
 		return "vector", elems, true
 	case slip.String:
@@ -229,6 +254,79 @@ func elemsOf(obj slip.Object) (typ string, elems []string, ok bool) {
 			elems = append(elems, sl.Show(slip.Character(r)))
 		}
 		return "string", elems, true
+	case slip.Octets:
+		for _, b := range to {
+			elems = append(elems, strconv.Itoa(int(b)))
+		}
+		return "octets", elems, true
+	case *slip.BitVector:
+		for i := 0; i < to.Length(); i++ {
+			if to.At(uint(i)) {
+				elems = append(elems, "1")
+			} else {
+				elems = append(elems, "0")
+			}
+		}
+		return "bit-vector", elems, true
 	}
 	return fmt.Sprintf("%T", obj), nil, false
+}
+
+// render is sl.Show with the elements of octets and bit-vectors (slip.Octet,
+// slip.Bit) rendered as the integers they are.
+func render(obj slip.Object) string {
+	switch to := obj.(type) {
+	case slip.Octet:
+		return strconv.Itoa(int(to))
+	case slip.Bit:
+		return strconv.Itoa(int(to))
+	case slip.List:
+		if len(to) == 0 {
+			return "nil"
+		}
+		var b strings.Builder
+		b.WriteByte('(')
+		for i, e := range to {
+			if 0 < i {
+				b.WriteByte(' ')
+			}
+			if t, ok := e.(slip.Tail); ok {
+				b.WriteString(". ")
+				b.WriteString(render(t.Value))
+				continue
+			}
+			b.WriteString(render(e))
+		}
+		b.WriteByte(')')
+		return b.String()
+	case *slip.Vector:
+		parts := make([]string, 0, 8)
+		for _, e := range to.AsList() {
+			parts = append(parts, render(e))
+		}
+		return "#(" + strings.Join(parts, " ") + ")"
+	}
+	return sl.Show(obj)
+}
+
+// fits tells whether the element tokens can be held by a sequence type.
+func fits(typ string, toks []string) bool {
+	for _, t := range toks {
+		switch typ {
+		case "string":
+			if !strings.HasPrefix(t, "#\\") {
+				return false
+			}
+		case "octets":
+			n, err := strconv.Atoi(t)
+			if err != nil || n < 0 || 255 < n {
+				return false
+			}
+		case "bit-vector":
+			if t != "0" && t != "1" {
+				return false
+			}
+		}
+	}
+	return true
 }
